@@ -415,6 +415,13 @@ def ramp_check(kind, case, rec):
         rec.label("natural-failure")
         return
     rec.require("yield-count", n == len(ramp), [n, len(ramp)])
+    # a step without a ramp is one substep with the items and boundaries as they are (the last ramp value stays applied)
+    x_before = np.concatenate([f.values.ravel() for f in fc.fields]).copy()
+    out = list(fem.Step(items=[body, item], boundaries=bounds).generate(tol=1e-9))
+    rec.require("step-without-ramp:one-substep", len(out) == 1, len(out))
+    if len(out) == 1:
+        x_after = np.concatenate([f.values.ravel() for f in out[0].x.fields])
+        rec.close("step-without-ramp:state-is-already-the-solution", float(np.abs(x_after - x_before).max()), 1e-7)
 
 
 FAMILIES = [
